@@ -31,6 +31,63 @@ claim(
     "DESIGN.md §6 C03",
 )
 
+
+XH_NOTE = ("Trusted: CrossHair 0.0.110 + z3 ('Confirmed over all paths' only; every condition has a reachability twin; counterexamples are replayed natively before they count); "
+           "Lark's Transformer fold contract; Lark.parse runs untraced on the realised string; DetLoop stands for a conforming asyncio loop. ")
+
+claim(
+    "C04", "model_checking",
+    "Step lemmas: CrossHair confirms, for every pair of abstract operand states (21x21) of each real RequirementConstraintTransformer callback, the documented four-valued result; "
+    "bounded glue: the real requirement_constraint_evaluation (DetLoop) on every selector-built expression up to the stated number of leaves x all assignments, "
+    "oracle = fold of the real parse tree with the documented tables and outcome mapping.",
+    XH_NOTE + "Induction over tree depth (step lemmas + fold contract) is an argument of DESIGN.md §3.1, not machine-checked; glue bound stated in the evidence.",
+    "CrossHair symbolic execution of the real callbacks/pipeline (exhaustive case split over abstract operand states and expression selectors)",
+    "DESIGN.md §6 C04",
+)
+claim(
+    "C05", "model_checking",
+    "Each information-only transformation is reduced to a lemma decided on the real code: commutativity / NEUTRAL identity / monotonicity (z3 on PZ terms), step lemmas on the real callbacks "
+    "(operand swap, and-ed hint, attached format constraint, refinement of UNKNOWN) for all abstract operand pairs, and a metamorphic exploration through the real requirement_constraint_evaluation "
+    "(every applicable transformation and position on the bounded expression set, incl. brackets made redundant by the documented precedence with mixed spellings).",
+    XH_NOTE,
+    "z3 lemmas on translated operator source + CrossHair symbolic execution (step lemmas, metamorphic glue)",
+    "DESIGN.md §6 C05",
+)
+claim(
+    "C06", "model_checking",
+    "Raise condition of the real or/xor/then_also callbacks decided for every abstract operand pair (depends on classes and neutrality only; invariant 'NEUTRAL <=> no requirement constraint below' re-established); "
+    "evaluation raises iff structurally invalid for all selector-built expressions x all assignments; real is_valid_expression: plumbing lemma over all fault subsets of the generated results (symbolic) and end-to-end on all bounded expressions incl. duplicate keys.",
+    XH_NOTE + "is_valid_expression plumbing lemma replaces parse/evaluate in its namespace by stubs.",
+    "CrossHair symbolic execution (step lemma on raise condition, pipeline glue, symbolic fault subsets for is_valid_expression)",
+    "DESIGN.md §6 C06",
+)
+claim(
+    "C07", "model_checking",
+    "For every in-scope operand pair of each real callback (operands carry structural representatives of format-constraint expressions) the collected expression parses with the real parser and its truth table over all 2^8 assignments "
+    "equals the operator applied to the operands' tables (attachment only if the partner is FULFILLED or a hint); glue: collected expression of the real requirement_constraint_evaluation vs. the direct reading of the real parse tree, "
+    "then fed to the real format_constraint_evaluation with symbolic truth values.",
+    XH_NOTE + "Where an outer attachment is not effective both admissible readings are accepted (DESIGN §6.0).",
+    "CrossHair symbolic execution of the real builder/callbacks with truth-table oracle; symbolic format-constraint values in the glue",
+    "DESIGN.md §6 C07",
+)
+claim(
+    "C18", "other",
+    "Key ranges: LIA queries over ALL integers (no bound) on terms PZ extracts from the current source of derive_condition_node_type and extract_categorized_keys_from_tree (single key); "
+    "enumeration: the real generator is run once per size and one z3 query per size, whose symbolic variable is the assignment, shows every combination occurs exactly once; "
+    "list extraction / __add__ / label handling: CrossHair over index selectors into a boundary pool.",
+    "Trusted: z3, CrossHair; the PZ translation (validated on a witness per path and on every range boundary +-1 against the real functions on every run); keys reach the code as [0-9]+P? strings.",
+    "source-to-SMT translation + unbounded LIA queries; z3 counting query over symbolic assignment; CrossHair for list code",
+    "DESIGN.md §6 C18",
+)
+claim(
+    "C20", "other",
+    "LIA lemmas (negation unsat) over terms PZ extracts from the current source of evaluate_931..935 / is_xtag_limit / has_no_utc_offset with the live pytz table of the zone object the code uses: "
+    "one query covers every whole second 1996-2037 x every UTC offset (verdict, offset independence, message iff unfulfilled) and every representable datetime of years 1..9999 (no exception). Counterexamples are rendered to ISO strings and replayed on the real evaluate_93x.",
+    "Trusted: z3; the time model (instant, offset) of a parsed datetime incl. CPython's OverflowError rule and pytz.fromutc's table lookup; validated per path on every run against the real functions through ISO strings. The string->datetime step (C code) is covered by witnesses only.",
+    "source-to-SMT translation + time model (live tz table) + one LIA query per lemma",
+    "DESIGN.md §6 C20",
+)
+
 ALL = [f"C{n:02d}" for n in range(1, 21)]
 manifest = {
     "version": 1,
@@ -44,7 +101,9 @@ manifest = {
     },
     "engines": [
         {"name": "XH", "path": "vf/xh.py", "kind_free_text": "CrossHair 0.0.110 symbolic execution of the real ahbicht functions (z3 inside), per condition, 'Confirmed over all paths' only", "serves_properties": sorted(CHECKS)},
-        {"name": "PZ", "path": "vf/pyz3.py", "kind_free_text": "Python-ast -> z3 translator for loop-free kernels, paths enumerated by solver feasibility", "serves_properties": [p for p in ("C03", "C13", "C18", "C20") if p in CHECKS]},
+        {"name": "PZ", "path": "vf/pyz3.py", "kind_free_text": "Python-ast -> z3 translator for loop-free kernels, paths enumerated by solver feasibility", "serves_properties": [p for p in ("C03", "C05", "C13", "C18", "C20") if p in CHECKS]},
+        {"name": "TM", "path": "vf/timemodel.py", "kind_free_text": "z3 model of civil time with the live pytz transition table", "serves_properties": [p for p in ("C20",) if p in CHECKS]},
+        {"name": "DL", "path": "vf/detloop.py", "kind_free_text": "clock-free deterministic asyncio loop executed symbolically by CrossHair", "serves_properties": [p for p in ("C04", "C05", "C06", "C07", "C08", "C09", "C10", "C12", "C13", "C14", "C15", "C16", "C17") if p in CHECKS]},
     ],
     "checks": [CHECKS[p] for p in ALL if p in CHECKS],
     "notes": "Solver-based checking of the real code (CrossHair + z3). See DESIGN.md. Exit 2 = harness error (never a violation).",
